@@ -410,7 +410,7 @@ package scipipe
 //@ define upstreamLinked(t *Task, a *AuditInfo) bool = (forall i string :: i in t.InIPs && !isJoin(t, i) ==> linkedPlain(t, a, i)) && (forall i string, j int :: i in t.InIPs && isJoin(t, i) && 0 <= j && j < len(t.subStreamIPs[i]) ==> linkedMember(t, a, i, j))
 
 //@ define apart(t *Task, a *AuditInfo, i string) bool = t.InIPs[i].auditInfo != nil && t.InIPs[i].auditInfo != a && t.InIPs[i].auditInfo.Tags != a.Tags
-//@ define tagsOfInput(t *Task, a *AuditInfo, i string) bool = forall k string :: k in t.InIPs[i].auditInfo.Tags ==> k in a.Tags && a.Tags[k] == t.InIPs[i].auditInfo.Tags[k]
+//@ define tagsOfInput(t *Task, a *AuditInfo, i string) bool = forall k string :: k in t.InIPs[i].auditInfo.Tags && t.InIPs[i].auditInfo.Tags[k] != "" ==> k in a.Tags && a.Tags[k] == t.InIPs[i].auditInfo.Tags[k]
 //@ define tagsMerged(t *Task, a *AuditInfo) bool = forall i string :: i in t.InIPs && apart(t, a, i) ==> tagsOfInput(t, a, i)
 
 //@ func (*Task).writeAuditLogs(t, startTime, finishTime)
